@@ -119,11 +119,11 @@ def schemaOf (name : String) (c : Ctx) : Option PSchema :=
   | "packet.Disconnect" =>
       -- `c.PacketID == 0x00 && c.Direction == ClientBound` (the login-state disconnect) always uses the 1.20.2 codec
       some <| mk <| component (if c.id = 0 ∧ c.dir = clientBound then Minecraft_1_20_2 else p)
-  | "plugin.Message" =>
+  | "plugin.Message" => some <|
       if p ≥ Minecraft_1_8 then
-        some { body := string, tail := .rest (if c.dir = serverBound then some 32767 else none),
-               vals := decide (p < Minecraft_1_13) }   -- from 1.13 Decode rewrites legacy channel names
-      else some <| mk <| seqs [string, P (.bytes17 true)]
+        { body := string, tail := .rest (if c.dir = serverBound then some 32767 else none),
+          vals := decide (p < Minecraft_1_13) }   -- from 1.13 Decode rewrites legacy channel names
+      else mk <| seqs [string, P (.bytes17 true)]
   | "packet.ClientSettings" => some <| mk <| fields [
       [str 16, u8, varint, bool],
       onlyIf (p ≤ Minecraft_1_7_6) [u8],
